@@ -127,6 +127,20 @@ func checkC08(c *Check) {
 					c.Req(ok, key+":override-source", r1, p.InstrPos(ci), "the override address is used on a path where OverrideAddr may be empty")
 					continue
 				}
+				// an address computed by a repository helper is beyond this rule's
+				// intraprocedural reach: undecided (broken check), not a violation
+				{
+					rv := resolve(v)
+					if tup, _ := tupleSource(rv); tup != nil {
+						rv = tup
+					}
+					if hc, ok := rv.(*ssa.Call); ok {
+						if f := staticCallee(hc); f != nil && p.IsRepoFn(f) {
+							c.Undecided(key+":checked-source", r1, p.InstrPos(ci), "destination is produced by helper "+fnName(f)+"; the rule does not follow addresses through helpers")
+							continue
+						}
+					}
+				}
 				// must have passed checkAddr(v) == nil
 				ok := srcGuarded(s.b, s.to, func(cond ssa.Value, pol bool) bool {
 					x, isNil, ok := nilTest(cond, pol)
@@ -262,7 +276,7 @@ func checkC08(c *Check) {
 			})
 			c.Req(okNoOv, key+":no-override", r2, p.InstrPos(st), "seed written even when the hook rewrote the address (the dialled address is not the message address)")
 		})
-		c.Floor("C08.R2:seed", nSeed, 1)
+		_ = nSeed // the seed is an optimisation: without it every first datagram is simply checked
 	}
 	// dial closure: the address dialled is the address reported
 	{
@@ -429,7 +443,11 @@ func checkC08(c *Check) {
 					})
 				} else if tup, idx := tupleSource(e); tup != nil && idx == 1 {
 					if call, ok := tup.(*ssa.Call); ok && invokeIs(call, "ReadFrom") {
-						hasRead = true
+						// the socket's own address is used only when no original address is recorded
+						hasRead = cfgEdgeGuardedBy(ph.Block().Preds[i], ph.Block(), func(cond ssa.Value, pol bool) bool {
+							x, nonEmpty, ok := strEmptyTest(cond, pol)
+							return ok && !nonEmpty && isLoadOfField(x, fOriginal)
+						})
 					}
 				}
 			}
@@ -580,7 +598,7 @@ func delegation(fn *ssa.Function, method string, iface *types.Named) delegInfo {
 	val := d.call.Value()
 	allInstrs(fn, func(in ssa.Instruction) {
 		r, ok := in.(*ssa.Return)
-		if !ok || !reachableAfter(d.call, r) {
+		if !ok {
 			return
 		}
 		res := retResults(r)
@@ -590,6 +608,21 @@ func delegation(fn *ssa.Function, method string, iface *types.Named) delegInfo {
 		last := resolve(res[len(res)-1])
 		if val != nil && (last == ssa.Value(val) || dependsOn(last, val, depOpts{})) {
 			return
+		}
+		if !reachableAfter(d.call, r) {
+			// a return that bypasses the delegate: acceptable only as an
+			// error shortcut, never as an unconditional nil (allow)
+			nilEdge := isNilConst(last)
+			if ph, ok := last.(*ssa.Phi); ok {
+				for _, e := range ph.Edges {
+					if isNilConst(e) {
+						nilEdge = true
+					}
+				}
+			}
+			if !nilEdge {
+				return
+			}
 		}
 		d.returnsDelegate = false
 	})
